@@ -1,3 +1,4 @@
 import Proofs.C14
 import Proofs.C09
 import Proofs.C07
+import Proofs.C12
